@@ -72,6 +72,7 @@ def run_function_case(task):
         rec['module_sha256'] = mi.sha256
         rec['file'] = mi.path
         E = Engine(src, contracts, calls.LIB, timeout_ms=task.get('timeout_ms', 10000))
+        E.stop_on_fail = bool(task.get('stop_on_fail'))
         try:
             outcomes = E.run(qual, c, case)
         except Unsupported as e:
@@ -80,12 +81,15 @@ def run_function_case(task):
             outcomes = []
         rec['paths'] = E.paths
         rec['outcomes'] = sorted(set('%s:%s' % o for o in outcomes))
+        if rec['status'] == 'ok' and not outcomes:
+            rec['status'] = 'vacuous'
+            rec['why'] = 'no live path reaches a return or a raise: the requires / assumed contracts are contradictory'
         for ob in E.obligations:
             r = {'name': ob.name, 'kind': ob.kind, 'status': ob.status, 'backend': ob.backend,
                  'time': round(ob.time, 4), 'line': ob.line, 'note': ob.note, 'model': None}
             if ob.status != 'unsat':
                 if ob.model is not None:
-                    r['model'] = str(ob.model)[:4000]
+                    r['model'] = str(ob.model)[:1500]
                     from .replay import model_args
                     ma = model_args(E, ob.model)
                     if ma is not None:
